@@ -68,7 +68,10 @@ QC = ((("a", "b"), ("b", "c"), ("c", "d"), ("d", "e"), ("e", "f", "x"),
 # tensor and inside the output differs) but a DIFFERENT contraction
 QA2 = ((("b", "a"), ("b", "c"), ("d", "c")), ("d", "a"),
        {"a": 2, "b": 3, "c": 4, "d": 5})
-QS = {"A": QA, "B": QB, "C": QC, "A2": QA2}
+# the closed network obtained from A by appending its output as a term
+QA3 = ((("a", "b"), ("b", "c"), ("c", "d"), ("a", "d")), (),
+       {"a": 2, "b": 3, "c": 4, "d": 5})
+QS = {"A": QA, "B": QB, "C": QC, "A2": QA2, "A3": QA3}
 
 HK = dict(methods=["greedy"], max_repeats=1, optlib="random", parallel=False)
 
@@ -174,6 +177,14 @@ def make_optimizer(kind, root):
 
     if kind == "rh-mem":
         return ctg.ReusableHyperOptimizer(**HK)
+    if kind == "rh-mem-improved":
+        return ctg.ReusableHyperOptimizer(overwrite="improved", **HK)
+    if kind == "rh-mem-hash-b":
+        return ctg.ReusableHyperOptimizer(hash_method="b", **HK)
+    if kind == "rrg-mem-improved":
+        return ctg.ReusableRandomGreedyOptimizer(
+            max_repeats=1, seed=0, accel=False, parallel=False,
+            overwrite="improved")
     if kind == "rh-disk":
         d = tempfile.mkdtemp(prefix="c16-", dir=root)
         return ctg.ReusableHyperOptimizer(directory=d, **HK)
@@ -265,7 +276,8 @@ def work_conc(idx, tier, seed, res):
                 "distinct_outcomes": len(exp.outcomes)}, cap=3)
 
 
-SEQ_KINDS = ["preset:auto", "preset:auto-hq", "preset:greedy",
+SEQ_KINDS = ["rh-mem-improved", "rh-mem-hash-b", "rrg-mem-improved",
+             "preset:auto", "preset:auto-hq", "preset:greedy",
              "preset:optimal", "preset:random-greedy", "auto-cache",
              "auto-nocache", "autohq-cache", "autohq-nocache", "rh-mem",
              "rh-disk", "rrg-mem"]
@@ -283,7 +295,7 @@ def work_seq(k, tier, seed, res):
         par._verif_orig_get_pool = par.get_pool
         par.get_pool = lambda *a, **kw: None
     try:
-        names = ["A", "A2", "B", "C"]
+        names = ["A", "A2", "A3", "B", "C"]
         for L in (1, 2, 3):
             for seq in itertools.product(names, repeat=L):
                 for entry in ("search", "call", "interface-tree",
@@ -330,7 +342,7 @@ def work_seq(k, tier, seed, res):
                             f"sequence:{kind}:{cls}",
                             {"optimizer": kind, "sequence": seq,
                              "entry": entry}, bad[:3], max_per_unit=2)
-        res.sample({"optimizer": kind, "sequences": 84,
+        res.sample({"optimizer": kind, "sequences": 155,
                     "entries": ["search", "call", "interface-tree",
                                 "interface-path"]}, cap=1)
     finally:
